@@ -149,10 +149,18 @@ impl<'a> XFormatting<'a> {
         }
 
         let captures = RE.captures(s)?;
+        // a width or precision that is written but cannot be represented is not "no width"
+        let width: Option<usize> = match captures.name("width") {
+            Some(m) => Some(
+                m.as_str()
+                    .parse()
+                    .ok()
+                    .filter(|w| *w <= isize::MAX as usize)?,
+            ),
+            None => None,
+        };
         let fill_specs = {
-            captures
-                .name("width")
-                .and_then(|m| m.as_str().parse().ok())
+            width
                 .map(|width| {
                     let filler = captures.name("fill").map(|m| m.as_str());
                     let alignment = captures.name("align").map(|m| m.as_str().into());
@@ -172,9 +180,10 @@ impl<'a> XFormatting<'a> {
         {
             return None;
         }
-        let precision = captures
-            .name("precision")
-            .and_then(|m| m.as_str().parse().ok());
+        let precision = match captures.name("precision") {
+            Some(m) if !m.as_str().is_empty() => Some(m.as_str().parse().ok()?),
+            _ => None,
+        };
         let sign_mode = captures.name("sign").map(|m| m.as_str().into());
         let grouping = captures.name("grouping").map(|m| m.as_str());
         if grouping.as_ref().map_or(false, |f| !f.is_ascii()) {
